@@ -151,43 +151,35 @@ theorem fieldLoop_dup (f g : Field) (h : f.id = g.id ∨ f.name = g.name) (a b c
       | inl h => exact Or.inl (h ▸ List.mem_cons_self)
       | inr h => exact Or.inr (h ▸ List.mem_cons_self)
 
+/-- one iteration either stops with an error or goes on with the name recorded -/
+theorem funcLoop_step (d : List Name) (f : Func) (r : List Func) :
+    funcLoop d (f :: r) ≠ none ∨ funcLoop d (f :: r) = funcLoop (f.name :: d) r := by
+  simp only [funcLoop]
+  repeat' split
+  all_goals simp
+
 theorem funcLoop_prefix {rest : List Func} (h : ∀ d, funcLoop d rest ≠ none) :
     ∀ (a : List Func) d, funcLoop d (a ++ rest) ≠ none
   | [], d => h d
   | f :: a, d => by
-    simp only [List.cons_append, funcLoop]
-    split
-    · simp
-    · split
-      · simp
-      · split
-        · simp
-        · exact funcLoop_prefix h a _
+    rcases funcLoop_step d f (a ++ rest) with h1 | h1
+    · exact h1
+    · rw [List.cons_append, h1]; exact funcLoop_prefix h a _
 
 theorem funcLoop_seen (g : Func) : ∀ (b c : List Func) d, g.name ∈ d → funcLoop d (b ++ g :: c) ≠ none
   | [], c, d, h => by simp [funcLoop, h]
   | f :: b, c, d, h => by
-    simp only [List.cons_append, funcLoop]
-    split
-    · simp
-    · split
-      · simp
-      · split
-        · simp
-        · exact funcLoop_seen g b c _ (List.mem_cons_of_mem _ h)
+    rcases funcLoop_step d f (b ++ g :: c) with h1 | h1
+    · exact h1
+    · rw [List.cons_append, h1]; exact funcLoop_seen g b c _ (List.mem_cons_of_mem _ h)
 
 theorem funcLoop_dup (f g : Func) (h : f.name = g.name) (a b c : List Func) :
     funcLoop [] (a ++ f :: (b ++ g :: c)) ≠ none := by
   apply funcLoop_prefix
   intro d
-  simp only [funcLoop]
-  split
-  · simp
-  · split
-    · simp
-    · split
-      · simp
-      · exact funcLoop_seen g b c _ (h ▸ List.mem_cons_self)
+  rcases funcLoop_step d f (b ++ g :: c) with h1 | h1
+  · exact h1
+  · rw [h1]; exact funcLoop_seen g b c _ (h ▸ List.mem_cons_self)
 
 theorem funcLoop_oneway (g : Func) (h : g.oneway = true ∧ (g.void = false ∨ g.throws ≠ [])) (a c : List Func) :
     funcLoop [] (a ++ g :: c) ≠ none := by
@@ -205,6 +197,16 @@ theorem funcLoop_oneway (g : Func) (h : g.oneway = true ∧ (g.void = false ∨ 
           | nil => exact absurd hth ht
           | cons _ _ => rfl
         simp [ho, this]
+
+/-- checkFunctionFields: a duplicated id or name among the arguments, or among the throws entries -/
+theorem funcLoop_fields (g : Func) (h : fieldLoop [] [] g.args ≠ none ∨ fieldLoop [] [] g.throws ≠ none) (a c : List Func) :
+    funcLoop [] (a ++ g :: c) ≠ none := by
+  apply funcLoop_prefix
+  intro d
+  simp only [funcLoop]
+  repeat' split
+  all_goals (try simp)
+  all_goals (rcases h with h | h <;> simp_all)
 
 /-- with the assignment in place, a second defaulted member is refused -/
 theorem unionLoop_sets_seen (g : Field) (hg : g.hasDefault = true) :
@@ -309,7 +311,7 @@ theorem file_of_lt {p : Program} {i : Nat} (h : i < p.files.length) : ∃ f, p.f
   ⟨p.files[i], List.getElem?_eq_getElem h⟩
 
 /-- pigeonhole: a duplicate-free list of names drawn from `m` is no longer than `m` -/
-theorem nodup_subset_length : ∀ {l m : List Name}, l.Nodup → (∀ x ∈ l, x ∈ m) → l.length ≤ m.length
+theorem nodup_subset_length {α : Type} [DecidableEq α] : ∀ {l m : List α}, l.Nodup → (∀ x ∈ l, x ∈ m) → l.length ≤ m.length
   | [], _, _, _ => Nat.zero_le _
   | a :: l, m, hn, hs => by
     have ha : a ∈ m := hs a List.mem_cons_self
@@ -1072,11 +1074,13 @@ theorem fileWork_typedef_item {f : File} {k : Nat} {t : Ty} :
     · simp only [fieldWork] at hfl
       split at hfl <;> simp at hfl
     · rcases hs with ⟨fn, _, hfn⟩ | hb
-      · simp only [funcWork, List.mem_append, List.mem_map] at hfn
+      · simp only [funcWork, List.mem_append, List.mem_flatMap] at hfn
         rcases hfn with (hfn | ⟨a, _, ha⟩) | ⟨a, _, ha⟩
         · split at hfn <;> simp at hfn
-        · simp at ha
-        · simp at ha
+        · simp only [fieldWork] at ha
+          split at ha <;> simp at ha
+        · simp only [fieldWork] at ha
+          split at ha <;> simp at ha
       · simp at hb
   · rintro ⟨td, htd, rfl⟩
     exact Or.inl (Or.inl (Or.inl ⟨k, td, (mem_enumFrom f.typedefs 0 k td).mpr ⟨Nat.zero_le _, by simpa using htd⟩, rfl⟩))
@@ -1175,25 +1179,65 @@ theorem resolveFile_of_knot {cfg : Cfg} (hcfg : isTypeCat cfg .typedef = true) {
           | true => exact absurd hrt this
           | false => simp
 
-/-! ### getEnum and the crash -/
+/-! ### getEnum terminates -/
 
-theorem getEnum_safe (cfg : Cfg) (p : Program) (tables : List (Option Table)) (fuel i : Nat) (name : Name)
-    (h : tlookup name (tableOf tables i) ≠ some .typedef) : getEnum cfg p tables (fuel + 1) i name ≠ none := by
-  simp only [getEnum]
-  cases p.files[i]? with
-  | none => simp
-  | some f =>
-    simp only
-    cases hl : tlookup name (tableOf tables i) with
+theorem mem_typedefKeys {p : Program} {i : Nat} {f : File} {td : Typedef} (hf : p.files[i]? = some f)
+    (htd : td ∈ f.typedefs) : (i, td.alias) ∈ typedefKeys p := by
+  simp only [typedefKeys, List.mem_flatMap, List.mem_map, Prod.exists]
+  exact ⟨i, f, (mem_enumFrom p.files 0 i f).mpr ⟨Nat.zero_le _, by simpa using hf⟩, td, htd, rfl⟩
+
+/-- the visited set only ever holds distinct (file, typedef) keys, so the fuel cannot run out -/
+theorem getEnum_ne_none (cfg : Cfg) (p : Program) (tables : List (Option Table)) :
+    ∀ (fuel : Nat) (seen : List (Nat × Name)) (i : Nat) (name : Name),
+    seen.Nodup → (∀ k ∈ seen, k ∈ typedefKeys p) → (typedefKeys p).length + 1 ≤ fuel + seen.length →
+    getEnum cfg p tables fuel seen i name ≠ none
+  | 0, seen, _, _, hn, hs, hf => by
+    have := nodup_subset_length hn hs
+    omega
+  | fuel + 1, seen, i, name, hn, hs, hf => by
+    simp only [getEnum]
+    cases hfile : p.files[i]? with
     | none => simp
-    | some c =>
-      cases c <;> first | exact absurd hl h | simp
-
-theorem incViews_tbl {tables : List (Option Table)} {f : File} {v : IncV} (h : v ∈ incViews tables f) :
-    v.tbl = tableOf tables v.ref := by
-  simp only [incViews, List.mem_map] at h
-  obtain ⟨inc, _, rfl⟩ := h
-  rfl
+    | some f =>
+      simp only
+      cases hl : tlookup name (tableOf tables i) with
+      | none => simp
+      | some c =>
+        cases c with
+        | typedef =>
+          simp only
+          cases hfind : f.typedefs.find? (fun td => decide (td.alias = name)) with
+          | none => simp
+          | some td =>
+            simp only
+            split
+            · simp
+            · rename_i hmem
+              have hal : td.alias = name := by simpa using List.find?_some hfind
+              have hkey : (i, name) ∈ typedefKeys p := hal ▸ mem_typedefKeys hfile (List.mem_of_find?_eq_some hfind)
+              have hn' : ((i, name) :: seen).Nodup := List.nodup_cons.mpr ⟨hmem, hn⟩
+              have hs' : ∀ k ∈ (i, name) :: seen, k ∈ typedefKeys p := by
+                intro k hk
+                cases List.mem_cons.mp hk with
+                | inl e => exact e ▸ hkey
+                | inr h => exact hs k h
+              have hf' : (typedefKeys p).length + 1 ≤ fuel + ((i, name) :: seen).length := by
+                simp only [List.length_cons]; omega
+              cases hty : td.ty with
+              | ref n =>
+                simp only
+                cases typeRef cfg tables f n with
+                | none => exact getEnum_ne_none cfg p tables fuel _ i n hn' hs' hf'
+                | some r => exact getEnum_ne_none cfg p tables fuel _ r.1 r.2 hn' hs' hf'
+              | base => simp
+              | list v => simp
+              | map k v => simp
+        | constant => simp
+        | enum => simp
+        | struct => simp
+        | union => simp
+        | exception => simp
+        | service => simp
 
 theorem foldl_some_inv {α : Type} (g : Option Nat → α → Option Nat) : ∀ (l : List α) (n : Nat),
     (∀ x ∈ l, ∀ m, ∃ m', g (some m) x = some m') → ∃ m', l.foldl g (some n) = some m'
@@ -1203,57 +1247,48 @@ theorem foldl_some_inv {α : Type} (g : Option Nat → α → Option Nat) : ∀ 
     simp only [List.foldl_cons, hm']
     exact foldl_some_inv g r m' fun y hy => h y (List.mem_cons_of_mem _ hy)
 
-theorem countSplit_safe (cfg : Cfg) (p : Program) (tables : List (Option Table)) (fuel i : Nat) (f : File) (ss : List Name)
-    (hs : (match ss with
-      | [a, _] => tlookup a (tableOf tables i) != some .typedef
-      | [a, e, _] => (incViews tables f).all fun v => !(v.pfx = a) || tlookup e v.tbl != some .typedef
-      | _ => true) = true) :
-    ∃ n, countSplit cfg p tables (fuel + 1) i f ss = some n := by
-  match ss, hs with
-  | [], _ => exact ⟨0, rfl⟩
-  | [a], _ => exact ⟨_, rfl⟩
-  | [a, b], hs =>
-    simp only [bne_iff_ne, ne_eq] at hs
-    have := getEnum_safe cfg p tables fuel i a hs
+theorem countSplit_total (cfg : Cfg) (p : Program) (tables : List (Option Table)) (fuel i : Nat) (f : File)
+    (hfuel : (typedefKeys p).length + 1 ≤ fuel) (ss : List Name) :
+    ∃ n, countSplit cfg p tables fuel i f ss = some n := by
+  have hg : ∀ j nm, getEnum cfg p tables fuel [] j nm ≠ none := fun j nm =>
+    getEnum_ne_none cfg p tables fuel [] j nm List.nodup_nil (by simp) (by simpa using hfuel)
+  match ss with
+  | [] => exact ⟨0, rfl⟩
+  | [a] => exact ⟨_, rfl⟩
+  | [a, b] =>
     simp only [countSplit]
-    cases hg : getEnum cfg p tables (fuel + 1) i a with
-    | none => exact absurd hg this
+    cases hge : getEnum cfg p tables fuel [] i a with
+    | none => exact absurd hge (hg i a)
     | some e => exact ⟨_, rfl⟩
-  | [a, e, v], hs =>
+  | [a, e, v] =>
     simp only [countSplit]
     apply foldl_some_inv
-    intro iv hiv m
-    simp only [List.all_eq_true] at hs
-    have h1 := hs iv hiv
+    intro iv _ m
     by_cases hp : iv.pfx = a
-    · simp only [hp, decide_true, Bool.not_true, Bool.false_or, bne_iff_ne, ne_eq] at h1
-      rw [incViews_tbl hiv] at h1
-      have := getEnum_safe cfg p tables fuel iv.ref e h1
-      simp only [hp, if_true]
-      cases hg : getEnum cfg p tables (fuel + 1) iv.ref e with
-      | none => exact absurd hg this
+    · simp only [hp, if_true]
+      cases hge : getEnum cfg p tables fuel [] iv.ref e with
+      | none => exact absurd hge (hg iv.ref e)
       | some r => cases r <;> exact ⟨_, rfl⟩
     · simp [hp]
-  | _ :: _ :: _ :: _ :: _, _ => exact ⟨0, rfl⟩
+  | _ :: _ :: _ :: _ :: _ => exact ⟨0, rfl⟩
 
-theorem countIdent_safe (cfg : Cfg) (p : Program) (tables : List (Option Table)) (fuel i : Nat) (f : File) (id : Name)
-    (h : identSafe tables i f id = true) : ∃ m, countIdent cfg p tables (fuel + 1) i f id = some m := by
-  simp only [identSafe, List.all_eq_true] at h
-  have : ∀ (l : List (List Name)) (n : Nat), (∀ ss ∈ l, ss ∈ splitValue id) →
-      ∃ m, l.foldl (fun acc ss => addCounts acc (countSplit cfg p tables (fuel + 1) i f ss)) (some n) = some m := by
+theorem countIdent_total (cfg : Cfg) (p : Program) (tables : List (Option Table)) (fuel i : Nat) (f : File)
+    (hfuel : (typedefKeys p).length + 1 ≤ fuel) (id : Name) : ∃ m, countIdent cfg p tables fuel i f id = some m := by
+  have : ∀ (l : List (List Name)) (n : Nat),
+      ∃ m, l.foldl (fun acc ss => addCounts acc (countSplit cfg p tables fuel i f ss)) (some n) = some m := by
     intro l
     induction l with
-    | nil => exact fun n _ => ⟨n, rfl⟩
+    | nil => exact fun n => ⟨n, rfl⟩
     | cons ss r ih =>
-      intro n hsub
-      obtain ⟨m, hm⟩ := countSplit_safe cfg p tables fuel i f ss (h ss (hsub ss List.mem_cons_self))
+      intro n
+      obtain ⟨m, hm⟩ := countSplit_total cfg p tables fuel i f hfuel ss
       simp only [List.foldl_cons, hm, addCounts]
-      exact ih (n + m) fun x hx => hsub x (List.mem_cons_of_mem _ hx)
-  exact this (splitValue id) 0 fun _ h => h
+      exact ih (n + m)
+  exact this (splitValue id) 0
 
-theorem resolveIdent_safe (cfg : Cfg) (p : Program) (tables : List (Option Table)) (fuel i : Nat) (f : File) (id : Name)
-    (h : identSafe tables i f id = true) : resolveIdent cfg p tables (fuel + 1) i f id ≠ .crash := by
-  obtain ⟨m, hm⟩ := countIdent_safe cfg p tables fuel i f id h
+theorem resolveIdent_no_crash (cfg : Cfg) (p : Program) (tables : List (Option Table)) (fuel i : Nat) (f : File)
+    (hfuel : (typedefKeys p).length + 1 ≤ fuel) (id : Name) : resolveIdent cfg p tables fuel i f id ≠ .crash := by
+  obtain ⟨m, hm⟩ := countIdent_total cfg p tables fuel i f hfuel id
   simp only [resolveIdent, hm]
   split
   · simp
@@ -1262,41 +1297,39 @@ theorem resolveIdent_safe (cfg : Cfg) (p : Program) (tables : List (Option Table
     | 1 => simp
     | _ + 2 => simp
 
-theorem resolveIdents_safe (cfg : Cfg) (p : Program) (tables : List (Option Table)) (fuel i : Nat) (f : File) :
-    ∀ (ids : List Name), (∀ id ∈ ids, identSafe tables i f id = true) →
-      resolveIdents cfg p tables (fuel + 1) i f ids ≠ .crash
-  | [], _ => by simp [resolveIdents]
-  | id :: r, h => by
-    have h1 := resolveIdent_safe cfg p tables fuel i f id (h id List.mem_cons_self)
+theorem resolveIdents_no_crash (cfg : Cfg) (p : Program) (tables : List (Option Table)) (fuel i : Nat) (f : File)
+    (hfuel : (typedefKeys p).length + 1 ≤ fuel) : ∀ (ids : List Name), resolveIdents cfg p tables fuel i f ids ≠ .crash
+  | [] => by simp [resolveIdents]
+  | id :: r => by
+    have h1 := resolveIdent_no_crash cfg p tables fuel i f hfuel id
     simp only [resolveIdents]
-    cases hr : resolveIdent cfg p tables (fuel + 1) i f id with
-    | ok => exact resolveIdents_safe cfg p tables fuel i f r fun x hx => h x (List.mem_cons_of_mem _ hx)
+    cases hr : resolveIdent cfg p tables fuel i f id with
+    | ok => exact resolveIdents_no_crash cfg p tables fuel i f hfuel r
     | undefined => simp
     | ambiguous => simp
     | crash => exact absurd hr h1
 
 theorem doWork_no_crash {cfg : Cfg} {p : Program} {tables : List (Option Table)} {fuel i : Nat} {f : File} {tbl : Table}
-    {incs : List IncV} : ∀ (ws : List Work) (acc : List Pend),
-    (∀ ids, Work.idents ids ∈ ws → ∀ id ∈ ids, identSafe tables i f id = true) →
-    (doWork cfg p tables (fuel + 1) i f tbl incs ws acc).1 ≠ .crash
-  | [], acc, _ => by simp [doWork]
-  | .type tgt t :: r, acc, h => by
+    {incs : List IncV} (hfuel : (typedefKeys p).length + 1 ≤ fuel) : ∀ (ws : List Work) (acc : List Pend),
+    (doWork cfg p tables fuel i f tbl incs ws acc).1 ≠ .crash
+  | [], acc => by simp [doWork]
+  | .type tgt t :: r, acc => by
     simp only [doWork]
     split
     · simp
-    · exact doWork_no_crash r _ fun ids hm => h ids (List.mem_cons_of_mem _ hm)
-  | .idents ids :: r, acc, h => by
-    have h1 := resolveIdents_safe cfg p tables fuel i f ids (h ids List.mem_cons_self)
-    cases hr : resolveIdents cfg p tables (fuel + 1) i f ids with
+    · exact doWork_no_crash hfuel r _
+  | .idents ids :: r, acc => by
+    have h1 := resolveIdents_no_crash cfg p tables fuel i f hfuel ids
+    cases hr : resolveIdents cfg p tables fuel i f ids with
     | ok =>
       simp only [doWork, hr]
-      exact doWork_no_crash r _ fun ids hm => h ids (List.mem_cons_of_mem _ hm)
+      exact doWork_no_crash hfuel r _
     | err e => simp [doWork, hr]
     | crash => exact absurd hr h1
-  | .base s :: r, acc, h => by
+  | .base s :: r, acc => by
     simp only [doWork]
     split
-    · exact doWork_no_crash r _ fun ids hm => h ids (List.mem_cons_of_mem _ hm)
+    · exact doWork_no_crash hfuel r _
     · simp
 
 /-! ### where types and constant identifiers sit in a file -/
@@ -1310,11 +1343,13 @@ inductive TypeSite (f : File) : Ty → Prop
   | arg (sv : Service) (fn : Func) (a : Field) : sv ∈ f.services → fn ∈ sv.funcs → a ∈ fn.args → TypeSite f a.ty
   | throws (sv : Service) (fn : Func) (a : Field) : sv ∈ f.services → fn ∈ sv.funcs → a ∈ fn.throws → TypeSite f a.ty
 
-/-- every constant value ResolveAST looks at: constants and defaults of struct-like fields
-(defaults of arguments and of throws entries are never resolved) -/
+/-- every constant value ResolveAST looks at: constants, defaults of struct-like fields, defaults
+of arguments and of throws entries -/
 inductive IdentSite (f : File) : List Name → Prop
   | const (c : Const) : c ∈ f.consts → IdentSite f c.idents
   | field (s : StructLike) (fl : Field) : s ∈ f.structLikes → fl ∈ s.fields → fl.hasDefault = true → IdentSite f fl.dflt
+  | arg (sv : Service) (fn : Func) (a : Field) : sv ∈ f.services → fn ∈ sv.funcs → a ∈ fn.args → a.hasDefault = true → IdentSite f a.dflt
+  | throws (sv : Service) (fn : Func) (a : Field) : sv ∈ f.services → fn ∈ sv.funcs → a ∈ fn.throws → a.hasDefault = true → IdentSite f a.dflt
 
 theorem typeSite_work {f : File} {t : Ty} (h : TypeSite f t) : ∃ tgt, Work.type tgt t ∈ fileWork f := by
   cases h with
@@ -1337,14 +1372,14 @@ theorem typeSite_work {f : File} {t : Ty} (h : TypeSite f t) : ∃ tgt, Work.typ
     refine ⟨none, ?_⟩
     simp only [fileWork, List.mem_append, List.mem_flatMap]
     refine Or.inr ⟨sv, hs, Or.inl ⟨fn, hf, ?_⟩⟩
-    simp only [funcWork, List.mem_append, List.mem_map]
-    exact Or.inl (Or.inr ⟨a, ha, rfl⟩)
+    simp only [funcWork, List.mem_append, List.mem_flatMap]
+    exact Or.inl (Or.inr ⟨a, ha, by simp [fieldWork]⟩)
   | throws sv fn a hs hf ha =>
     refine ⟨none, ?_⟩
     simp only [fileWork, List.mem_append, List.mem_flatMap]
     refine Or.inr ⟨sv, hs, Or.inl ⟨fn, hf, ?_⟩⟩
-    simp only [funcWork, List.mem_append, List.mem_map]
-    exact Or.inr ⟨a, ha, rfl⟩
+    simp only [funcWork, List.mem_append, List.mem_flatMap]
+    exact Or.inr ⟨a, ha, by simp [fieldWork]⟩
 
 theorem identSite_work {f : File} {ids : List Name} (h : IdentSite f ids) : Work.idents ids ∈ fileWork f := by
   cases h with
@@ -1354,36 +1389,20 @@ theorem identSite_work {f : File} {ids : List Name} (h : IdentSite f ids) : Work
   | field s fl hs hf hd =>
     simp only [fileWork, List.mem_append, List.mem_flatMap]
     exact Or.inl (Or.inr ⟨s, hs, fl, hf, by simp [fieldWork, hd]⟩)
+  | arg sv fn a hs hf ha hd =>
+    simp only [fileWork, List.mem_append, List.mem_flatMap]
+    refine Or.inr ⟨sv, hs, Or.inl ⟨fn, hf, ?_⟩⟩
+    simp only [funcWork, List.mem_append, List.mem_flatMap]
+    exact Or.inl (Or.inr ⟨a, ha, by simp [fieldWork, hd]⟩)
+  | throws sv fn a hs hf ha hd =>
+    simp only [fileWork, List.mem_append, List.mem_flatMap]
+    refine Or.inr ⟨sv, hs, Or.inl ⟨fn, hf, ?_⟩⟩
+    simp only [funcWork, List.mem_append, List.mem_flatMap]
+    exact Or.inr ⟨a, ha, by simp [fieldWork, hd]⟩
 
 theorem base_work {f : File} {s : Service} (h : s ∈ f.services) : Work.base s ∈ fileWork f := by
   simp only [fileWork, List.mem_append, List.mem_flatMap]
   exact Or.inr ⟨s, h, Or.inr (by simp)⟩
-
-theorem fileWork_idents {f : File} {ids : List Name} (h : Work.idents ids ∈ fileWork f) : ∀ id ∈ ids, id ∈ fileIdents f := by
-  intro id hid
-  simp only [fileWork, List.mem_append, List.mem_map, List.mem_flatMap, Prod.exists] at h
-  simp only [fileIdents, List.mem_append, List.mem_flatMap]
-  rcases h with ((⟨_, _, _, he⟩ | ⟨c, hc, hw⟩) | ⟨s, hs, fl, hfl, hw⟩) | ⟨s, _, hw⟩
-  · cases he
-  · simp only [List.mem_cons, Work.idents.injEq, List.not_mem_nil, or_false] at hw
-    rcases hw with hw | hw
-    · cases hw
-    · exact Or.inl ⟨c, hc, hw ▸ hid⟩
-  · simp only [fieldWork, List.mem_append, List.mem_cons, List.not_mem_nil, or_false] at hw
-    rcases hw with hw | hw
-    · cases hw
-    · split at hw
-      · rename_i hd
-        simp only [List.mem_cons, Work.idents.injEq, List.not_mem_nil, or_false] at hw
-        exact Or.inr ⟨s, hs, fl, hfl, by simp [hd, hw ▸ hid]⟩
-      · simp at hw
-  · rcases hw with ⟨fn, _, hfn⟩ | hb
-    · simp only [funcWork, List.mem_append, List.mem_map] at hfn
-      rcases hfn with (hfn | ⟨a, _, ha⟩) | ⟨a, _, ha⟩
-      · split at hfn <;> simp at hfn
-      · cases ha
-      · cases ha
-    · simp at hb
 
 /-! ## Part 4 — the pipeline -/
 
@@ -1489,7 +1508,7 @@ theorem run_of_resolve_bad {cfg : Cfg} {env : Env} {p : Program} (hpp : env.pars
           · rename_i hok
             exact absurd hok h
 
-theorem resolveFile_no_crash {cfg : Cfg} {p : Program} (hs : identsAvoidTypedefs p = true) (i : Nat) :
+theorem resolveFile_no_crash {cfg : Cfg} {p : Program} (i : Nat) :
     resolveFile cfg p (programTables p) i ≠ .crash := by
   simp only [resolveFile]
   cases hf : p.files[i]? with
@@ -1500,16 +1519,8 @@ theorem resolveFile_no_crash {cfg : Cfg} {p : Program} (hs : identsAvoidTypedefs
     | none => simp
     | some tbl =>
       simp only
-      have hsafe : ∀ ids, Work.idents ids ∈ fileWork f → ∀ id ∈ ids, identSafe (programTables p) i f id = true := by
-        intro ids hm id hid
-        simp only [identsAvoidTypedefs, List.all_eq_true] at hs
-        have := hs (i, f) ((mem_enumFrom p.files 0 i f).mpr ⟨Nat.zero_le _, by simpa using hf⟩)
-        exact this id (fileWork_idents hm id hid)
-      have hfuel : enumFuel p = ((p.files.map fun f => f.typedefs.length).sum + 1) + 1 := rfl
-      have hnc := doWork_no_crash (cfg := cfg) (p := p) (tables := programTables p)
-        (fuel := (p.files.map fun f => f.typedefs.length).sum + 1) (i := i) (f := f) (tbl := tbl)
-        (incs := incViews (programTables p) f) (fileWork f) [] hsafe
-      rw [← hfuel] at hnc
+      have hnc := doWork_no_crash (cfg := cfg) (p := p) (tables := programTables p) (fuel := enumFuel p) (i := i) (f := f)
+        (tbl := tbl) (incs := incViews (programTables p) f) (by simp [enumFuel]) (fileWork f) []
       cases hd : doWork cfg p (programTables p) (enumFuel p) i f tbl (incViews (programTables p) f) (fileWork f) [] with
       | mk res tds =>
         rw [hd] at hnc
@@ -1523,7 +1534,9 @@ theorem resolveFile_no_crash {cfg : Cfg} {p : Program} (hs : identsAvoidTypedefs
           | none => exact absurd hrt this
           | some b => cases b <;> simp
 
-theorem run_no_crash {cfg : Cfg} {env : Env} {p : Program} (w : WF p) (hs : identsAvoidTypedefs p = true) :
+/-- no fuel ever runs out: DepthFirstSearch and CircleDetect (pigeonhole on the visited set / path),
+getEnum (pigeonhole on its `seen` set), ResolveTypedefs (every round that goes on removes a pair) -/
+theorem run_no_crash {cfg : Cfg} {env : Env} {p : Program} (w : WF p) :
     (run cfg env p).outcome ≠ .crash := by
   obtain ⟨order, ho, _⟩ := dfsOrder_complete w
   have hc := circleDetect_ne_none w
@@ -1534,7 +1547,7 @@ theorem run_no_crash {cfg : Cfg} {env : Env} {p : Program} (w : WF p) (hs : iden
     simp only [resolveAll, ho]
     intro h
     obtain ⟨i, _, hi⟩ := firstBad_crash h
-    exact resolveFile_no_crash hs i hi
+    exact resolveFile_no_crash i hi
   simp only [run, escaped]
   repeat' split
   all_goals first | simp | (rename_i h; first | exact absurd h hc | exact absurd h hca | exact absurd h hra) | skip
